@@ -42,6 +42,7 @@ Decided(t) == ~Fld(t, "noref", FALSE) /\ (Fld(t, "illformed", FALSE) \/ Render([
 
 Why(t) ==
   IF t.outcome \in {"panic", "fatal", "timeout"} THEN "the render did not return"
+  ELSE IF t.outcome = "addrleak" THEN "the output holds a memory address"
   ELSE IF ~SamePairs(t.before, t.after) THEN "rendering changed the caller's bindings"
   \* (the fingerprints also tell a Drop from its value, a typed from a generic slice, and see a slice's spare capacity)
   ELSE IF Fld(t, "beforesig", "") # Fld(t, "aftersig", "") THEN "rendering changed the caller's bindings (as Go values)"
